@@ -874,7 +874,6 @@ func (fr *finishRecorder) ObserveEvent(event observer.Event) {
 	f, err := os.OpenFile(fr.path, os.O_APPEND|os.O_CREATE|os.O_WRONLY, 0o644)
 	must(err)
 	f.Write(append(b, '\n'))
-	f.Sync()
 	f.Close()
 }
 
@@ -936,11 +935,15 @@ func tomlString(s string) string {
 type runConfig struct {
 	fam, annealer, otype, level, name, ds string
 	R, iters                              int
+	conc                                  int // MaximumConcurrentRunNumber (0 = leave crem's default, 1)
 }
 
 func (rc runConfig) toml(outDir string) string {
 	var sb strings.Builder
 	fmt.Fprintf(&sb, "[Scenario]\nName = %s\nRunNumber = %d\nOutputPath = %s\nOutputType = %q\nOutputLevel = %q\n", tomlString(rc.name), rc.R, tomlString(outDir), rc.otype, rc.level)
+	if rc.conc > 0 {
+		fmt.Fprintf(&sb, "MaximumConcurrentRunNumber = %d\n", rc.conc)
+	}
 	sb.WriteString("[Scenario.Reporting]\nReportEveryNumberOfIterations = 1000\n[Scenario.Reporting.LogLevelDestinations]\nAnnealing = \"Discarded\"\n")
 	fmt.Fprintf(&sb, "[Annealer]\nType = %q\n[Annealer.Parameters]\n", rc.annealer)
 	if rc.fam == "single" {
@@ -952,7 +955,7 @@ func (rc runConfig) toml(outDir string) string {
 }
 
 func (rc runConfig) line() string {
-	return fmt.Sprintf("%s %s %s %s %s %d %d %s", rc.fam, rc.annealer, rc.otype, rc.level, pct(rc.name), rc.R, rc.iters, pct(filepath.Base(rc.ds)))
+	return fmt.Sprintf("%s %s %s %s %s %d %d %s conc=%d", rc.fam, rc.annealer, rc.otype, rc.level, pct(rc.name), rc.R, rc.iters, pct(filepath.Base(rc.ds)), rc.conc)
 }
 
 // executeScenario runs one scenario in a child process; returns the ground truth, the output
@@ -1057,7 +1060,7 @@ func oneSavedConfig(c *Ctx, nm *namer, refs map[string]*Ref, rc runConfig, reps 
 			setNames[strings.Join(o.setNames, ",")] = true
 		}
 		for _, rt := range runs {
-			c.Stat(fmt.Sprintf("saved-runs: family=%s type=%s level=%s runs=%d setsize=%s", rc.fam, rc.otype, rc.level, rc.R, nbucket(len(rt.Members))))
+			c.Stat(fmt.Sprintf("saved-runs: family=%s type=%s level=%s runs=%d concurrent=%v setsize=%s", rc.fam, rc.otype, rc.level, rc.R, rc.conc > 1, nbucket(len(rt.Members))))
 		}
 		os.RemoveAll(filepath.Dir(dir))
 	}
@@ -1128,7 +1131,11 @@ func suiteSavedRuns(c *Ctx) {
 							if c.Thorough() && r.Chance(0.5) {
 								name = cleanName(r)
 							}
-							cfgs = append(cfgs, runConfig{fam: fam, annealer: ann, otype: otype, level: level, name: name, ds: dss[i%len(dss)], R: R, iters: iters})
+							conc := 0
+							if R > 1 && i%2 == 0 {
+								conc = R // all runs of the scenario at once: their end-of-run saves overlap
+							}
+							cfgs = append(cfgs, runConfig{fam: fam, annealer: ann, otype: otype, level: level, name: name, ds: dss[i%len(dss)], R: R, iters: iters, conc: conc})
 							i++
 						}
 					}
@@ -1156,7 +1163,7 @@ func configOfSaveLine(l string, dss []string) (runConfig, bool) {
 	if !ok || err != nil {
 		return runConfig{}, false
 	}
-	rc := runConfig{fam: f[1], otype: strings.ToUpper(f[2]), level: strings.ToUpper(f[3][:1]) + f[3][1:], name: name, R: R, iters: 60, ds: dss[0], annealer: "Kirkpatrick"}
+	rc := runConfig{fam: f[1], otype: strings.ToUpper(f[2]), level: strings.ToUpper(f[3][:1]) + f[3][1:], name: name, R: R, iters: 60, ds: dss[0], annealer: "Kirkpatrick", conc: R}
 	if rc.fam == "multi" {
 		rc.annealer = "Suppapitnarm"
 	}
